@@ -272,3 +272,15 @@ def unanimously_pseudo(e):
     except _TooBig:
         return None
     return True
+
+
+def clause_cost(e, limit=400):
+    """Number of clauses the library-style transformation of the logical formula e produces (expansion 'CD': equivalence
+    as two implications, xor as two conjunctions), or None when it exceeds `limit` - the clause conversion is
+    exponential there and analysing such a constraint is a matter of hours, not a property of the result."""
+    try:
+        return len(_cnf(_nnf(e, True, "CD"), limit))
+    except _TooBig:
+        return None
+    except (ValueError, KeyError, IndexError, TypeError):
+        return 0
